@@ -1,3 +1,4 @@
+import os
 from vp.api import Q, Mutant
 TITLE = "Profiling traces read back exactly as written (reduced: in-buffer round trip of one events buffer)"
 W = "parsec/profiling.c"
@@ -36,19 +37,20 @@ INFO = {
 }
 
 
-def q(name, k, l1, l2, tiers=("quick", "thorough"), timeout=900, slow=False):
+def q(ctx, name, k, l1, l2, tiers=("quick", "thorough"), timeout=900, slow=False):
     return Q(name, ["hw.c", "hr.c"], defs=["PARSEC_PROF_TRACE", "VP_EBS=160", "K=%d" % k, "L1=%d" % l1, "L2=%d" % l2],
              unwind=10, units=[W, R, B, "parsec/profiling.h", "tools/profiling/dbpreader.h"], patches=PATCH, object_bits=12,
-             remove_bodies=["switch_event_buffer"], timeout=timeout, tiers=tiers, slow=slow,
+             cflags=["-fno-sanitize=alignment"],   # the binary format is byte-packed: events start at offset 25 of the buffer (native replay only)
+             remove_bodies=["switch_event_buffer"], incs=[os.path.join(ctx.repo, "tools", "profiling")], timeout=timeout, tiers=tiers, slow=slow,
              info=dict(INFO, bounds={"K": k, "L1": l1, "L2": l2, "buffer bytes": 160}))
 
 
 def queries(ctx):
-    qs = [q("roundtrip_k2_l0_8", 2, 0, 8), q("roundtrip_k2_l4_8", 2, 4, 8)]
+    qs = [q(ctx, "roundtrip_k2_l0_8", 2, 0, 8), q(ctx, "roundtrip_k2_l4_8", 2, 4, 8)]
     if ctx.thorough:
-        qs += [q("roundtrip_k3_l0_8", 3, 0, 8, tiers=("thorough",), timeout=2400, slow=True),
-               q("roundtrip_k3_l4_8", 3, 4, 8, tiers=("thorough",), timeout=2400, slow=True),
-               q("roundtrip_k3_l8_3", 3, 8, 3, tiers=("thorough",), timeout=2400, slow=True)]
+        qs += [q(ctx, "roundtrip_k3_l0_8", 3, 0, 8, tiers=("thorough",), timeout=2400, slow=True),
+               q(ctx, "roundtrip_k3_l4_8", 3, 4, 8, tiers=("thorough",), timeout=2400, slow=True),
+               q(ctx, "roundtrip_k3_l8_3", 3, 8, 3, tiers=("thorough",), timeout=2400, slow=True)]
     return qs
 
 
@@ -67,4 +69,17 @@ def mutants(ctx):
     ]
 
 
-CLAIMED = False
+CLAIMED = True
+MANIFEST = {
+ "engine": "cbmc-src",
+ "text": "Heavily reduced: in-buffer round trip only. The real parsec/profiling.c (compiled with -DPARSEC_PROF_TRACE, which the tested build never enables) writes K=2 (thorough: 3) "
+         "events with fully symbolic key, 64-bit event id, taskpool id, 16-bit flags, optional info and payload bytes through parsec_profiling_trace_flags_info_fn into one events "
+         "buffer; the real event iterator of tools/profiling/dbpreader.c (refer_events_buffer, dbp_iterator_first/current/next, DBP_EVENT_LENGTH, dbp_event_get_*) then walks the same "
+         "memory. Shown for every such event sequence: the reader returns exactly the K events in the order written with the same key, ids, flags (HAS_INFO iff an info was attached), "
+         "timestamp, info length and payload bytes, and NULL afterwards; the write position advances by exactly the event lengths. 6 seeded changes of writer, reader and the shared "
+         "format header are reported.",
+ "note": "writer and reader state are built directly by the harness (no init, no file): header, dictionary and thread sections, buffer chaining, several buffers/streams/processes, "
+         "dictionary.c and all file I/O are outside the claim; the reader's key lengths are set equal to the writer's; info lengths are enumerated ((0,8),(4,8); thorough also (8,3)); "
+         "mmap and the clock are stubs; HAS_INFO is assumed to be passed only with an info object.",
+ "technique": "CBMC bounded symbolic execution of the two real C units linked into one program + SAT (cadical)",
+}
